@@ -913,6 +913,11 @@ func runCheck(prop, tier string, budgetMs, nWorkers int) int {
 		}
 	}
 
+	if canaryMismatch > 0 {
+		// machinery trouble, not a verdict about the property: said loudly, the exit status is left alone
+		fmt.Fprintf(os.Stderr, "vcheck: WARNING determinism canary: %d of %d repeated indices gave another trace in a fresh process (replay files of this run may not reproduce; run `vcheck selftest determinism %s`)\n", canaryMismatch, canaryChecked, prop)
+	}
+
 	// evidence
 	var instr map[string]any
 	if b, err := os.ReadFile(filepath.Join(verifDir, "build/labels.json")); err == nil {
